@@ -1074,9 +1074,9 @@ class Interp:
             t = L.truth(v)
             d = self.ctx.branch(t)
             if is_and and not d:
-                return v if not L.is_z3(v) else False
+                return v if not (L.is_z3(v) and z3.is_bool(v)) else False
             if not is_and and d:
-                return v if not L.is_z3(v) else True
+                return v if not (L.is_z3(v) and z3.is_bool(v)) else True
         return v
 
     def ex_UnaryOp(self, e, fr):
